@@ -25,6 +25,14 @@ type part struct {
 	equiv *world.Op // nil: no stand-alone equivalent; noop=true: read/guard verb
 	noop  bool
 	read  bool // allowed in a read-only transaction
+	// guard: an index-free guard verb (check-not-exists, check-session) whose verdict depends on what earlier
+	// operations of the same transaction did; indexed: the verb carries a raft index (CAS, check-index)
+	guard   bool
+	indexed bool
+	kvWrite bool // a KV write verb with a stand-alone equivalent
+	// staleRow: the verb presents an index older than the row's current one; the row is found in this table by this
+	// substring. If the row exists the whole transaction must fail.
+	staleTable, staleRow string
 }
 
 type pre struct {
@@ -102,9 +110,13 @@ func Run(c *ev.Ctx) {
 		case api.KVGet, api.KVGetTree, api.KVGetOrEmpty, api.KVCheckIndex, api.KVCheckSession, api.KVCheckNotExists:
 			p.noop = true
 			p.read = verb == api.KVGet || verb == api.KVGetTree || verb == api.KVGetOrEmpty
+			p.guard = verb == api.KVCheckNotExists || verb == api.KVCheckSession
+			p.indexed = verb == api.KVCheckIndex
 		default:
 			op := sp.Op()
 			p.equiv = &op
+			p.indexed = useIdx
+			p.kvWrite = true
 		}
 		parts = append(parts, p)
 	}
@@ -150,6 +162,10 @@ func Run(c *ev.Ctx) {
 		part{tp: cmdlib.TxnCheck(api.CheckCAS, "n1", c1crit, cmdlib.IdxStale)},
 		part{tp: cmdlib.TxnCheck(api.CheckDelete, "n1", c1, 0), equiv: eq(cmdlib.DeregCheck("n1", "c1", ""))},
 		part{tp: cmdlib.TxnCheck(api.CheckDeleteCAS, "n1", sc1, cmdlib.IdxCurrent)},
+		part{tp: cmdlib.TxnCheck(api.CheckDeleteCAS, "n1", cmdlib.CheckSpec{ID: "sc2", ServiceID: "web"}, cmdlib.IdxStale), staleTable: "checks", staleRow: `CheckID:"sc2"`},
+		part{tp: cmdlib.TxnCheck(api.CheckCAS, "n1", cmdlib.CheckSpec{ID: "sc2", Status: api.HealthWarning, ServiceID: "web"}, cmdlib.IdxStale), staleTable: "checks", staleRow: `CheckID:"sc2"`},
+		part{tp: cmdlib.TxnService(api.ServiceDeleteCAS, "n1", cmdlib.SvcSpec{Name: "api", Port: 2}, cmdlib.IdxStale), staleTable: "services", staleRow: `ServiceID:"api"`},
+		part{tp: cmdlib.TxnService(api.ServiceCAS, "n1", cmdlib.SvcSpec{Name: "api", Port: 3}, cmdlib.IdxStale), staleTable: "services", staleRow: `ServiceID:"api"`},
 		part{tp: cmdlib.TxnCheck(api.CheckGet, "n1", sc1, 0), noop: true, read: true},
 		part{tp: cmdlib.TxnSessionDelete("s1"), equiv: eq(cmdlib.SessionDestroy("s1"))},
 	)
@@ -164,7 +180,12 @@ func Run(c *ev.Ctx) {
 	}
 	seed1 := []world.Op{cmdlib.RegNode(n1), cmdlib.RegCheck(n1, serf), cmdlib.RegService(n1, web), cmdlib.RegCheck(n1, c1), cmdlib.RegCheck(n1, sc1), cmdlib.RegCheck(n1, sessCk), s1.Create(), s2.Create(),
 		cmdlib.KVSpec{Verb: api.KVLock, Key: "a", Val: "x", Sess: "s1"}.Op(), cmdlib.KVSpec{Verb: api.KVLock, Key: "a/b", Val: "y", Sess: "s2"}.Op()}
-	seeds := [][]world.Op{nil, {cmdlib.RegNode(n1)}, seed1}
+	// every row was created and later modified, so that its create and modify indexes differ
+	// (the modification directly follows the creation, so "one less than the current index" is the create index)
+	seed2 := append(append([]world.Op{}, seed1...),
+		cmdlib.RegCheck(n1, cmdlib.CheckSpec{ID: "sc2", Status: api.HealthPassing, ServiceID: "web"}), cmdlib.RegCheck(n1, cmdlib.CheckSpec{ID: "sc2", Status: api.HealthCritical, ServiceID: "web"}),
+		cmdlib.RegService(n1, cmdlib.SvcSpec{Name: "api", Port: 1}), cmdlib.RegService(n1, cmdlib.SvcSpec{Name: "api", Port: 2}))
+	seeds := [][]world.Op{nil, {cmdlib.RegNode(n1)}, seed1, seed2}
 	d1 := 1
 	if !quick {
 		d1 = 2
@@ -251,6 +272,39 @@ func Run(c *ev.Ctx) {
 				if checkWatch && fired(p.ws) {
 					t.Violate("C05:failed-but-woke-watcher:"+failKinds(l.idx, parts, resp), "failed transaction woke a blocked watcher")
 				}
+				// converse, only where no operation carries a raft index (those resolve differently when applied one
+				// by one) and the list has a guard: if every operation succeeds alone, in order, and every guard
+				// passes on the state the earlier operations produce, the transaction had to succeed
+				hasGuard, clean := false, true
+				for _, i := range l.idx {
+					hasGuard = hasGuard || parts[i].guard
+					if parts[i].indexed || !(parts[i].guard || parts[i].kvWrite) {
+						clean = false // only KV writes and guards: their stand-alone commands mean exactly the same
+					}
+				}
+				if hasGuard && clean {
+					ref := p.clone()
+					allOK := true
+					for _, i := range l.idx {
+						switch {
+						case parts[i].guard:
+							if _, ok := ref.Apply(cmdlib.Txn(parts[i].tp)); ok {
+								if rr, isResp := ref.LastRaw.(structs.TxnResponse); isResp && len(rr.Errors) > 0 {
+									allOK = false
+								}
+							}
+						case parts[i].noop:
+						default:
+							if r, ok := ref.Apply(*parts[i].equiv); !ok || failedResult(r) {
+								allOK = false
+							}
+						}
+					}
+					if allOK {
+						t.Violate("C05:failed-although-every-operation-and-guard-passes-in-order:"+failKinds(l.idx, parts, resp),
+							fmt.Sprintf("transaction failed (%s) but each operation succeeds alone in this order and each guard passes on the state the earlier ones produce", t.Result))
+					}
+				}
 				return
 			}
 			// success: every changed row carries exactly this entry's index
@@ -277,6 +331,17 @@ func Run(c *ev.Ctx) {
 						if v, _ := strconv.ParseUint(m[2], 10, 64); v != idx && !oldIdx[v] {
 							t.Violate("C05:changed-row-wrong-index:table="+tab+":"+t.Op.Kind, fmt.Sprintf("row changed by the transaction at index %d carries index %d: %s", idx, v, dump.Compress(r)))
 						}
+					}
+				}
+			}
+			// a verb that presents an index older than its row's must fail, and with it the transaction
+			for _, i := range l.idx {
+				if parts[i].staleRow == "" {
+					continue
+				}
+				for _, r := range p.dump[parts[i].staleTable] {
+					if strings.Contains(r, parts[i].staleRow) && !strings.Contains(r, "PeerName:") {
+						t.Violate("C05:committed-although-a-conditional-operation-was-stale:"+parts[i].tp.Kind, fmt.Sprintf("transaction committed although %s presents an index older than the row's", parts[i].tp.Name))
 					}
 				}
 			}
@@ -406,6 +471,17 @@ func allHaveEquiv(idx []int, parts []part) bool {
 // with the post-transaction world w. Only called for transactions that reported success.
 func differential(ref, w *world.World, idx []int, parts []part, masked *dump.Options) ([]string, string) {
 	for _, i := range idx {
+		if parts[i].guard {
+			// the guard alone, on a state that already holds what the earlier operations did
+			g := cmdlib.Txn(parts[i].tp)
+			if r, ok := ref.Apply(g); ok {
+				if resp, isResp := ref.LastRaw.(structs.TxnResponse); isResp && len(resp.Errors) > 0 {
+					differentialMsg = "transaction reported success although its guard " + parts[i].tp.Name + " fails once the earlier operations of the same transaction are in effect (" + r + ")"
+					return nil, "guard-did-not-see-earlier-operations:" + parts[i].tp.Kind
+				}
+			}
+			continue
+		}
 		if parts[i].noop {
 			continue
 		}
